@@ -1111,6 +1111,7 @@ class Environments(collections.abc.Sequence, Sequence[Environment]):
         finally:
             CobaContext.logger = CobaContext.logger.undecorate()
 
+        if not Path(path).exists(): ZipFile(path,mode='w').close() #nothing was written so we leave an empty archive
         return Environments.from_save(path)
 
     def cache(self) -> 'Environments':
